@@ -32,7 +32,7 @@ func TestVerifC16BridgeStartRace(t *testing.T) {
 	run.Floor("start_returned", 100)
 	scope := []string{"tunnox-core/internal/protocol/session/tunnel", "tunnox-core/internal/stream"}
 	batch := 250
-	for done := 0; done < n && run.Violations() < 20 && run.Counter("leak_violations") < 3; done += batch {
+	for done := 0; done < n && run.Violations() < 20 && run.Counter("leak_violations") < 3 && run.Counter("watchdog") < 3; done += batch {
 		snap := vk.SnapshotGoroutines()
 		type rec struct {
 			tc   *c16TunnelConn
@@ -41,7 +41,7 @@ func TestVerifC16BridgeStartRace(t *testing.T) {
 		}
 		var recs []rec
 		var cleanup []func()
-		for b := 0; b < batch && done+b < n; b++ {
+		for b := 0; b < batch && done+b < n && run.Counter("leak_violations") < 3 && run.Counter("watchdog") < 3; b++ {
 			k := ks[r.Intn(len(ks))]
 			spins := make([]int, k+1)
 			for i := range spins {
@@ -68,8 +68,24 @@ func TestVerifC16BridgeStartRace(t *testing.T) {
 			}
 			started := make(chan struct{})
 			fns = append(fns, func() { defer close(started); _ = br.Start() })
-			maxIn, ok := c16RunRace(fns, k, spins) // returns when Start() has returned too
+			var parked []string
+			maxIn, ok, hung := c16RunRaceHang(fns, k, spins, func() bool { // returns when Start() has returned too
+				fp, stable := c16ParkedFingerprint(snap, scope)
+				parked = fp
+				return stable
+			})
 			cleanup = append(cleanup, func() { srcFar.Close(); tgtFar.Close(); cancel() })
+			if hung {
+				// every Close has returned, Start() has not, and the bridge's goroutines sit in
+				// the same frames in three dumps 100 ms apart while the harness feeds nothing
+				run.Violation("C16:bridge|close-during-start|start-does-not-return-after-close", map[string]any{"case": desc, "parked": parked})
+				run.Count("leak_violations", 1)
+				srcFar.Close()
+				tgtFar.Close()
+				cancel()
+				snap = vk.SnapshotGoroutines()
+				continue
+			}
 			if !ok {
 				run.Count("watchdog", 1)
 				continue
